@@ -20,12 +20,12 @@ func genC36(e *Env) error {
 	if err != nil {
 		return err
 	}
-	sws, err := g4bSwitches(p, fd, "path.Ext(fname)")
+	sws, err := g4bSwitches(p, fd, "")
 	if err != nil {
 		return err
 	}
 	if len(sws) != 1 || !sws[0].HasDefault {
-		return fmt.Errorf("canCl: expected one `switch path.Ext(fname)` with a default clause, found %d", len(sws))
+		return fmt.Errorf("canCl: expected one switch over string literals with a default clause, found %d", len(sws))
 	}
 	fmt.Fprintf(&out, "(* canCl: switch path.Ext(fname) *)\nDefinition cancl_case_labels : list (list str) := %s.\n\n", g4bStrListList(sws[0].Labels))
 
@@ -46,7 +46,7 @@ func genC36(e *Env) error {
 		fmts = append(fmts, f)
 		var as []string
 		for _, x := range a[2:] {
-			as = append(as, p.Src(x))
+			as = append(as, g4bShape(p, x))
 		}
 		args = append(args, as)
 	}
